@@ -163,6 +163,7 @@ inductive Op where
   | dopen                              -- a `Deserializer` / stream over several documents
   | dval (t : T) (first : Bool)        -- its next value (`first`: reader index 0 → padded copy, own arena)
   | dclose
+  | dfail (first : Bool)               -- its next value fails to parse (`Err`): no value is produced
   deriving Repr, Inhabited
 
 def fuel : Nat := 100000
@@ -278,6 +279,17 @@ def dvalShared (s : St) (t : T) : St :=
     let a := s.nextA
     cloneInto { s with arena := upd s.arena a 1, handles := [a], nextA := a + 1 } (viewOf a t)
 
+/-- a failed parse on the padded path: the fresh arena is created and released at once -/
+def parseFail (s : St) : St :=
+  let a := s.nextA
+  decArena { s with arena := upd s.arena a 1, nextA := a + 1 } a
+
+/-- a failed parse on the copy path: the deserializer's arena exists afterwards (created on first use) -/
+def dfailShared (s : St) : St :=
+  match s.handles with
+  | _ :: _ => s
+  | [] => { s with arena := upd s.arena s.nextA 1, handles := [s.nextA], nextA := s.nextA + 1 }
+
 def dcloseAt (s : St) : St :=
   match s.handles with
   | a :: rest => decArena { s with handles := rest } a
@@ -309,6 +321,7 @@ def stepCore (s : St) (op : Op) : Option St :=
   | .dopen => some s
   | .dval t first => if first then some (parseInto s t) else some (dvalShared s t)
   | .dclose => some (dcloseAt s)
+  | .dfail first => if first then some (parseFail s) else some (dfailShared s)
 
 def step (s : St) (op : Op) : Option St := (stepCore s op).map (drain fuel)
 
